@@ -5,13 +5,16 @@ use crate::xotdata::Xot;
 use crate::NamespaceId;
 
 // used to determine whether something is a HTML 5 element
-pub(crate) const XHTML_NS: &str = "https://www.w3.org/1999/xhtml";
+pub(crate) const XHTML_NS: &str = "http://www.w3.org/1999/xhtml";
+// this (incorrect) URI was used for the XHTML namespace before and is still
+// recognized
+const LEGACY_XHTML_NS: &str = "https://www.w3.org/1999/xhtml";
 const MATHML_NS: &str = "http://www.w3.org/1998/Math/MathML";
 const SVG_NS: &str = "http://www.w3.org/2000/svg";
 
 #[derive(Debug)]
 pub(crate) struct Html5Elements {
-    xhtml_namespace_id: NamespaceId,
+    xhtml_namespace_ids: [NamespaceId; 2],
     mathml_namespace_id: NamespaceId,
     svg_namespace_id: NamespaceId,
     pub(crate) html5_names: HtmlNames,
@@ -23,26 +26,28 @@ pub(crate) struct Html5Elements {
 
 #[derive(Debug)]
 pub(crate) struct HtmlNames {
-    xhtml_namespace_id: NamespaceId,
+    xhtml_namespace_ids: [NamespaceId; 2],
     ids: HashSet<NameId>,
     names: HashSet<String>,
 }
 
 impl HtmlNames {
-    fn new(xot: &mut Xot, xhtml_namespace_id: NamespaceId, names: &[&str]) -> Self {
+    fn new(xot: &mut Xot, xhtml_namespace_ids: [NamespaceId; 2], names: &[&str]) -> Self {
         let mut ids = HashSet::new();
         for name in names {
             // lowercase names, no namespace
             ids.insert(xot.add_name_ns(name, xot.no_namespace()));
             // uppercase names, no namespace
             ids.insert(xot.add_name_ns(&name.to_ascii_uppercase(), xot.no_namespace()));
-            // lowercase names, XHTML namespace
-            ids.insert(xot.add_name_ns(name, xhtml_namespace_id));
-            // uppercase names, XHTML namespace
-            ids.insert(xot.add_name_ns(&name.to_ascii_uppercase(), xhtml_namespace_id));
+            for xhtml_namespace_id in xhtml_namespace_ids {
+                // lowercase names, XHTML namespace
+                ids.insert(xot.add_name_ns(name, xhtml_namespace_id));
+                // uppercase names, XHTML namespace
+                ids.insert(xot.add_name_ns(&name.to_ascii_uppercase(), xhtml_namespace_id));
+            }
         }
         Self {
-            xhtml_namespace_id,
+            xhtml_namespace_ids,
             ids,
             names: names.iter().map(|name| name.to_string()).collect(),
         }
@@ -50,7 +55,7 @@ impl HtmlNames {
 
     pub(crate) fn is_html_element(&self, xot: &Xot, name_id: NameId) -> bool {
         let namespace = xot.namespace_for_name(name_id);
-        namespace == self.xhtml_namespace_id || namespace == xot.no_namespace()
+        self.xhtml_namespace_ids.contains(&namespace) || namespace == xot.no_namespace()
     }
 
     pub(crate) fn matches(&self, xot: &Xot, name_id: NameId) -> bool {
@@ -72,7 +77,10 @@ impl HtmlNames {
 
 impl Html5Elements {
     pub(crate) fn new(xot: &mut Xot) -> Self {
-        let xhtml_namespace_id = xot.add_namespace(XHTML_NS);
+        let xhtml_namespace_ids = [
+            xot.add_namespace(XHTML_NS),
+            xot.add_namespace(LEGACY_XHTML_NS),
+        ];
         let mathml_namespace_id = xot.add_namespace(MATHML_NS);
         let svg_namespace_id = xot.add_namespace(SVG_NS);
         let html5_names = [
@@ -187,7 +195,7 @@ impl Html5Elements {
             "video",
             "wbr",
         ];
-        let html5_names = HtmlNames::new(xot, xhtml_namespace_id, &html5_names);
+        let html5_names = HtmlNames::new(xot, xhtml_namespace_ids, &html5_names);
 
         let void_names = [
             "area", "base", "br", "col", "embed", "hr", "img", "input", "keygen", "link", "meta",
@@ -196,7 +204,7 @@ impl Html5Elements {
             "basefont", "frame", "isindex",
         ];
 
-        let void_names = HtmlNames::new(xot, xhtml_namespace_id, &void_names);
+        let void_names = HtmlNames::new(xot, xhtml_namespace_ids, &void_names);
 
         let phrasing_content_names = [
             "a", "abbr", "area", "audio", "b", "bdi", "bdo", "br", "button", "canvas", "cite",
@@ -206,16 +214,16 @@ impl Html5Elements {
             "span", "strong", "sub", "sup", "svg", "textarea", "time", "u", "var", "video", "wbr",
         ];
         let phrasing_content_names =
-            HtmlNames::new(xot, xhtml_namespace_id, &phrasing_content_names);
+            HtmlNames::new(xot, xhtml_namespace_ids, &phrasing_content_names);
 
         let formatted_names = ["pre", "script", "style", "title", "textarea"];
-        let formatted_names = HtmlNames::new(xot, xhtml_namespace_id, &formatted_names);
+        let formatted_names = HtmlNames::new(xot, xhtml_namespace_ids, &formatted_names);
 
         let no_escape_names = ["script", "style"];
-        let no_escape_names = HtmlNames::new(xot, xhtml_namespace_id, &no_escape_names);
+        let no_escape_names = HtmlNames::new(xot, xhtml_namespace_ids, &no_escape_names);
         Self {
             html5_names,
-            xhtml_namespace_id,
+            xhtml_namespace_ids,
             mathml_namespace_id,
             svg_namespace_id,
             void_names,
@@ -239,12 +247,12 @@ impl Html5Elements {
     }
 
     pub(crate) fn must_be_serialized_unprefixed(&self, namespace: NamespaceId) -> bool {
-        namespace == self.xhtml_namespace_id
+        self.xhtml_namespace_ids.contains(&namespace)
             || namespace == self.mathml_namespace_id
             || namespace == self.svg_namespace_id
     }
 
     pub(crate) fn is_html_namespace(&self, xot: &Xot, namespace_id: NamespaceId) -> bool {
-        namespace_id == self.xhtml_namespace_id || namespace_id == xot.no_namespace()
+        self.xhtml_namespace_ids.contains(&namespace_id) || namespace_id == xot.no_namespace()
     }
 }
